@@ -6,6 +6,7 @@ import Driver.SoapD
 import Driver.PipelineD
 import Driver.WsaD
 import Driver.WsseD
+import Driver.LexD
 /-! Line-protocol driver: one JSON object per stdin line, one per stdout line. -/
 open Lean Driver
 
@@ -24,6 +25,8 @@ def dispatch (j : Json) : R Json := do
   | "wsa.request" => wsaRequest j
   | "wsse.apply" => wsseApply j
   | "sha1" => sha1Hex j
+  | "lex.enc" => lexEnc j
+  | "lex.dec" => lexDec j
   | _ => throw s!"unknown op {op}"
 
 def handleLine (line : String) : String :=
